@@ -85,6 +85,9 @@ pub enum Case {
     Structured(SP),
     Raw(RawP),
     Bytes { #[serde(with = "crate::ids::hex32")] local: Id, len: u16, seed: u64, #[serde(with = "crate::ids::hexvec")] prefix: Vec<u8> },
+    /// fuzz-target form: the bytes after the IV are given UNMASKED (static header, auth-data, body);
+    /// the harness masks the header part (23 + declared auth-data size bytes) for `dst` and judges
+    Unmasked { #[serde(with = "crate::ids::hex32")] dst: Id, iv: [u8; 16], #[serde(with = "crate::ids::hexvec")] rest: Vec<u8> },
 }
 
 pub struct C05;
@@ -197,7 +200,27 @@ fn iv_wraps(iv: &[u8; 16]) -> bool {
 
 fn run_structured(sp: &SP, rep: &mut CaseReport) {
     if iv_wraps(&sp.iv) {
-        rep.exclude("iv-low64-wraps(ctr counter width unspecified)", 1);
+        // comparison with the reference layout is excluded (counter width unspecified), but the
+        // crate's own encode/decode must still agree with each other for such IVs
+        rep.exclude("iv-low64-wraps: comparison with the reference layout (ctr counter width unspecified)", 1);
+        let ident = identity(sp);
+        let (v, _r) = build(sp);
+        let dst = crate::ids::node_id(&sp.dst);
+        let enc = packet_encode(v.clone(), &dst);
+        if enc.len() >= 63 && enc.len() <= 1280 {
+            match packet_decode(&dst, ident, &enc) {
+                Err(e) => rep.fail("packet/roundtrip-rejected", format!("decode(encode(p)) failed with {e} for an IV whose low 64 bits wrap ({:?})", sp.kind)),
+                Ok((p2, aad)) => {
+                    if p2 != v {
+                        rep.fail("packet/roundtrip-different-packet", format!("decode(encode(p)) != p for an IV whose low 64 bits wrap ({:?})", sp.kind));
+                    } else if aad != discv5::verif::packet_authenticated_data(&v) {
+                        rep.fail("packet/roundtrip-different-aad", "authenticated data differs for an IV whose low 64 bits wrap".to_string());
+                    }
+                }
+            }
+            rep.class("structured-iv-at-counter-wrap(roundtrip only)");
+            rep.nontrivial = true;
+        }
         return;
     }
     let ident = identity(sp);
@@ -271,6 +294,26 @@ fn judge(local: &Id, ident: ProtocolIdentity, data: &[u8], rep: &mut CaseReport)
     let lid = crate::ids::node_id(local);
     let got = packet_decode(&lid, ident, data);
     let want = rp::decode(local, &ident.protocol_id, &ident.protocol_version, data);
+    // whatever is accepted: the authenticated bytes must be the header AS RECEIVED (iv || unmasked
+    // static header || unmasked auth-data of the declared size), independent of how it was parsed
+    if let Ok((_, aad)) = &got {
+        if data.len() >= 39 {
+            let iv: [u8; 16] = data[..16].try_into().unwrap();
+            let mut un = data[16..].to_vec();
+            rp::mask(local, &iv, &mut un);
+            let ads = u16::from_be_bytes([un[21], un[22]]) as usize;
+            let end = (23 + ads).min(un.len());
+            let mut expect = iv.to_vec();
+            expect.extend_from_slice(&un[..end]);
+            if aad != &expect {
+                rep.fail(
+                    "packet/aad-differs-from-received-header",
+                    format!("decode returned {} authenticated bytes that differ from iv || unmasked header as received ({} bytes)", aad.len(), expect.len()),
+                );
+                return;
+            }
+        }
+    }
     match (&got, &want) {
         (Ok((p, aad)), Ok((rpk, raad))) => {
             if &to_ref(p) != rpk {
@@ -377,6 +420,21 @@ pub fn run_case(case: &Case) -> CaseReport {
     match case {
         Case::Structured(sp) => run_structured(sp, &mut rep),
         Case::Raw(r) => run_raw(r, &mut rep),
+        Case::Unmasked { dst, iv, rest } => {
+            if iv_wraps(iv) {
+                rep.exclude("iv-low64-wraps(ctr counter width unspecified)", 1);
+                return rep;
+            }
+            let declared = if rest.len() >= 23 { u16::from_be_bytes([rest[21], rest[22]]) as usize } else { 0 };
+            let hdr = (23 + declared).min(rest.len());
+            let mut data = iv.to_vec();
+            let mut masked = rest[..hdr].to_vec();
+            rp::mask(dst, iv, &mut masked);
+            data.extend_from_slice(&masked);
+            data.extend_from_slice(&rest[hdr..]);
+            rep.class("unmasked-domain-input");
+            judge(dst, ProtocolIdentity::default(), &data, &mut rep);
+        }
         Case::Bytes { local, len, seed, prefix } => {
             let mut data = prefix.clone();
             data.extend_from_slice(&stream(*seed, (*len as usize).saturating_sub(prefix.len())));
@@ -430,7 +488,13 @@ fn sp_strategy() -> BoxedStrategy<SP> {
     (
         id_strategy(),
         id_strategy(),
-        any::<[u8; 16]>(),
+        prop_oneof![
+            12 => any::<[u8; 16]>(),
+            1 => Just([0xffu8; 16]),
+            1 => Just([0u8; 16]),
+            // low 64 bits close to the wrap (the header spans up to 80 cipher blocks)
+            1 => (any::<[u8; 8]>(), 0u8..100).prop_map(|(hi, d)| { let mut iv = [0xffu8; 16]; iv[..8].copy_from_slice(&hi); iv[15] = 0xff - d; iv }),
+        ],
         any::<[u8; 12]>(),
         proptest::option::weighted(0.15, (any::<[u8; 6]>(), any::<[u8; 2]>())),
         kind,
